@@ -310,9 +310,12 @@ fn run(c: &SimCase) -> (Vec<(&'static str, u64)>, bool, Result<(), Failure>) {
 
 pub fn sim_case_strategy() -> BoxedStrategy<SimCase> {
     let pc = || prop_oneof![1 => Just(0u16), 2 => Just(1u16), 6 => 2000u16..=65535];
+    let cnt = || prop_oneof![12 => 0u16..=12, 3 => 13u16..=80, 1 => 80u16..=400];
     (
         (0u8..6, 1u8..=3, prop_oneof![1 => Just(0u64), 1 => Just(u64::MAX), 8 => any::<u64>()], 1u16..=200, prop_oneof![Just(100u64), Just(1000u64), Just(1_000_000u64)], 1u32..=10),
-        (0u16..=12, 0u16..=12, 0u16..=12, pc(), pc(), pc(), pc()),
+        // agent counts: mostly small, but also the hundreds of traders of the project's own examples, so
+        // that code paths depending on the population size (many live orders per agent set) are reached
+        (cnt(), cnt(), cnt(), pc(), pc(), pc(), pc()),
         (1u32..=200, -1000i32..=4000, prop_oneof![3 => 0u32..=3_000, 1 => Just(10_000u32)], 1u32..=1000, 0u32..=50_000, 1u32..=2_000, 0u32..=2_000),
     )
         .prop_map(|((shape, assets, seed, steps, step_size, tick), (n_random, n_noise, n_mom, activity, p_limit, p_market, p_cancel), (trade_vol, mu_milli, sigma_milli, decay_milli, demand_milli, scale_milli, ratio_milli))| SimCase {
@@ -342,7 +345,7 @@ pub fn sim_case_strategy() -> BoxedStrategy<SimCase> {
 
 pub fn parts(tier: Tier) -> (Vec<Part<Case>>, String) {
     (
-        vec![Part { name: "configurations".to_string(), kind: PartKind::Random { make: Box::new(|| sim_case_strategy().prop_map(Case::Sim).boxed()), cases: tier.pick(600, 12_000) } }],
+        vec![Part { name: "configurations".to_string(), kind: PartKind::Random { make: Box::new(|| sim_case_strategy().prop_map(Case::Sim).boxed()), cases: tier.pick(6_000, 60_000) } }],
         "A case is a complete simulation configuration: seed (incl. 0 and u64::MAX), 1..200 steps, step size, tick 1..10, environment (Env or MarketEnv<1..3,10>) and one of six statically derived agent compositions (#[derive(AgentSet)] / #[derive(MarketAgentSet)] structs containing random, noise and momentum agents in different field orders and multiplicities, one of them nested; a count of 0 disables a member) with generated parameters, executed through the crate's own sim_runner / market_sim_runner. A stable FNV digest over all order records, all trades, the complete level-2 history and the per-step traded volumes must be equal for: two runs in one process on fresh objects, a run in a separate OS process with the progress bar, and a run in another separate OS process without it (different environment blocks and working directories, ASLR, per-process hash seeds); and must differ for a different seed. Non-trivial: the run created >= 8 orders and >= 1 trade.".to_string(),
     )
 }
